@@ -285,7 +285,7 @@ func Routes(c explore.Chooser) *prog.Program {
 	rawTail := ""
 	if sameLine == "yes" {
 		// two function literals starting on one source line (legal, not gofmt'ed)
-		rawTail = "func routesRaw(e *echo.Echo) { e.GET(\"/api/raw/a\", func(c echo.Context) error { return nil }); e.DELETE(\"/api/raw/b\", func(c echo.Context) error { return c.JSON(200, 1) }) }\n"
+		rawTail = "func routesRaw(e *echo.Echo) { e.GET(\"/api/raw/a\", func(c echo.Context) error { return nil }); e.DELETE(\"/api/raw/b\", func(c echo.Context) error { var nb int; return c.JSON(200, nb) }) }\n"
 		routes = append(routes, Route{Verb: "GET", URL: "/api/raw/a", Pkg: "main"}, Route{Verb: "DELETE", URL: "/api/raw/b", Return: "int", Pkg: "main"})
 	}
 	bimps := []string{"\t\"" + echoPath + "\""}
